@@ -1,5 +1,6 @@
 import asyncio
 import concurrent.futures
+import itertools
 import logging
 import multiprocessing
 import multiprocessing.queues
@@ -196,6 +197,11 @@ class Server:
         self._uid_to_futures = {}
         # Size of this dict is capped at `self._capacity`.
         # A few places need to enforce this size limit.
+        self._uid_counter = itertools.count()
+        # Request IDs must be unique over the lifetime of the server, not just
+        # among live objects: `id(fut)` can be recycled for a new request while
+        # some servlet (e.g. a slow member of a fail-fast ensemble) is still
+        # working on the previous holder of that ID, mixing up their results.
 
     def __getstate__(self):
         raise TypeError(f"cannot pickle '{self.__class__.__name__!r}' object")
@@ -308,7 +314,7 @@ class Server:
             't1': t0,  # end of enqueuing, to be updated
             'deadline': t0 + timeout,
         }
-        uid = id(fut)
+        uid = next(self._uid_counter)
 
         with self._pipeline_notfull:
             if len(pipeline) >= self._capacity:
@@ -488,6 +494,11 @@ class AsyncServer:
         self._uid_to_futures = {}
         # Size of this dict is capped at `self._capacity`.
         # A few places need to enforce this size limit.
+        self._uid_counter = itertools.count()
+        # Request IDs must be unique over the lifetime of the server, not just
+        # among live objects: `id(fut)` can be recycled for a new request while
+        # some servlet (e.g. a slow member of a fail-fast ensemble) is still
+        # working on the previous holder of that ID, mixing up their results.
 
     def __getstate__(self):
         raise TypeError(f"cannot pickle '{self.__class__.__name__!r}' object")
@@ -550,7 +561,7 @@ class AsyncServer:
             't1': t0,  # end of enqueuing; to be updated
             'deadline': t0 + timeout,
         }
-        uid = id(fut)
+        uid = next(self._uid_counter)
 
         async with self._pipeline_notfull:
             if len(pipeline) >= self._capacity:
